@@ -747,7 +747,7 @@ fn directed_hist() -> impl Strategy<Value = HistCase> {
     })
 }
 
-fn mixed_hist() -> impl Strategy<Value = HistCase> {
+pub fn mixed_hist() -> impl Strategy<Value = HistCase> {
     prop_oneof![2 => hist_strategy().boxed(), 3 => directed_hist().boxed()]
 }
 
